@@ -4,6 +4,7 @@ from props import _objcheckout_audit as A
 from props import _objcheckout_common as C
 from props import _objcheckout_kind as K
 from props import _objcheckout_links as L
+from props import _objcheckout_rm as R
 
 PROPERTY = "C05"
 GEN = ["types", "odiff", "relink", "objcheckout"]
@@ -60,11 +61,14 @@ def run(ctx):
     L.run_links(ctx, ctx.n(40, 400))
     L.run_refused(ctx, ctx.n(12, 48))
     K.run_kinds(ctx, ctx.n(20, 192))
+    R.run_rm(ctx, ctx.n(16, 300))
 
 
 def replay_case(ctx, case):
     if "ops" in case:
         return L.replay(ctx, case)
+    if case.get("falsy"):
+        return R.replay(ctx, case)
     if case.get("kind_change"):
         problems, out = K.run_kind_case(ctx, case)
         return {"outcome": out, "problems": problems, "violates": bool(problems)}
